@@ -114,7 +114,7 @@ impl SubCheck for Adapters {
         "wrapped_system_is_bisimilar"
     }
     fn cases(&self, tier: Tier) -> u32 {
-        tier.pick(1000, 20000)
+        tier.pick(4000, 50000)
     }
     fn strategy(&self, _tier: Tier) -> BoxedStrategy<AdapterCase> {
         (sys_strategy(adapter_params()), 0u8..5, proptest::collection::vec(0u8..3, 3))
@@ -236,7 +236,7 @@ impl SubCheck for HandlerLevel {
         "handler_level_transparency"
     }
     fn cases(&self, tier: Tier) -> u32 {
-        tier.pick(30000, 600000)
+        tier.pick(200000, 3000000)
     }
     fn strategy(&self, _tier: Tier) -> BoxedStrategy<HandlerCase> {
         let p = adapter_params();
@@ -354,7 +354,7 @@ impl SubCheck for VecClient {
         "scripted_vec_client"
     }
     fn cases(&self, tier: Tier) -> u32 {
-        tier.pick(1500, 30000)
+        tier.pick(5000, 60000)
     }
     fn strategy(&self, _tier: Tier) -> BoxedStrategy<VecCase> {
         (1usize..=3)
